@@ -70,6 +70,10 @@ def run_case(case, ctx):
         _check(e == exp, "hp-encode", "encode_nibbles(%r)=%s, HP=%s" % (x, hx(e), hx(exp)))
         d = cut(NB.decode_nibbles, exp)
         _check(tuple(d) == x, "hp-decode", "decode_nibbles(%s)=%r, expected %r" % (hx(exp), d, x))
+        # the same encoded path held in a bytearray / memoryview (what a store may hand out)
+        for form in (bytearray(exp), memoryview(exp)):
+            d2 = cut(NB.decode_nibbles, form)
+            _check(tuple(d2) == x, "hp-decode", "decode_nibbles(%s(%s))=%r, expected %r" % (type(form).__name__, hx(exp), d2, x))
         # "any nibble sequence": the same answers for a list and (unterminated) for a Nibbles
         el = cut(NB.encode_nibbles, list(x))
         _check(el == exp, "hp-encode", "encode_nibbles(%r)=%s (list input), HP=%s" % (list(x), hx(el), hx(exp)))
@@ -97,6 +101,9 @@ def run_case(case, ctx):
         _check(ty == (1 if t else 2), "hexnode-classify", "get_node_type(%r)=%r" % (node, ty))
         ek = cut(ND.extract_key, node)
         _check(tuple(ek) == n, "hexnode-extract-key", "extract_key gave %r for path %r" % (ek, n))
+        node_ba = [bytearray(exp), bytearray(b"v") if t else bytearray(H32)]
+        _check(cut(ND.get_node_type, node_ba) == (1 if t else 2) and tuple(cut(ND.extract_key, node_ba)) == n,
+               "hexnode-classify", "a node whose items are bytearrays is not classified / keyed like its bytes twin: %r" % (node_ba,))
         _check(bool(cut(ND.is_leaf_node, node)) == bool(t) and
                bool(cut(ND.is_extension_node, node)) == (not t),
                "hexnode-classify", "is_leaf/is_extension wrong for %r" % (node,))
@@ -104,6 +111,7 @@ def run_case(case, ctx):
         b = unhx(case["bytes"])
         n = cut(NB.bytes_to_nibbles, b)
         _check(tuple(n) == refmpt.nibs(b), "bytes-nibbles", "bytes_to_nibbles(%s)=%r" % (hx(b), n))
+        _check(tuple(cut(NB.bytes_to_nibbles, bytearray(b))) == refmpt.nibs(b), "bytes-nibbles", "bytes_to_nibbles(bytearray(%s)) differs" % hx(b))
         back = cut(NB.nibbles_to_bytes, n)
         _check(back == b, "bytes-nibbles", "nibbles_to_bytes(bytes_to_nibbles(%s))=%s" % (hx(b), hx(back)))
         # the other direction on an even-length nibble string
@@ -201,6 +209,10 @@ def run_case(case, ctx):
         _check(cut(ND.get_node_type, b"") == 0 and cut(ND.is_blank_node, b""),
                "hexnode-classify", "blank node not classified blank")
         _check(cut(ND.decode_node, b"") == b"", "hexnode-classify", "decode_node(b'') not blank")
+        # the blank node as it is stored in a database: rlp(b'') = 0x80
+        blank = cut(ND.decode_node, b"\x80")
+        _check(blank == b"" and cut(ND.get_node_type, blank) == 0 and cut(ND.is_blank_node, blank),
+               "hexnode-classify", "decode_node(0x80) (the encoded blank node) gives %r" % (blank,))
     else:
         raise ValueError(kind)
     ctx.evaluated()
